@@ -75,6 +75,9 @@ def gen_cases(tier, seed):
         subsets = [rng.sample(U, rng.randint(1, nu)) for _ in range(rng.randint(1, 7))]
         if rng.random() < 0.35:
             d = rng.choice(subsets); subsets.insert(rng.randrange(len(subsets) + 1), list(d) if rng.random() < 0.5 else list(reversed(d)))   # the same subset offered twice
+        if rng.random() < 0.25:
+            for _ in range(rng.randint(1, 2)):
+                subsets.insert(rng.randrange(len(subsets) + 1), [])      # an empty subset is a legal (useless) member of the family: indices still refer to the caller's list
         missing = set(U) - set(x for s in subsets for x in s)
         if missing:
             subsets.append(list(missing))
